@@ -94,10 +94,10 @@ type c13ws struct {
 	path string
 }
 
-func (w *c13ws) Subprotocol() string            { return "rtsp" }
+func (w *c13ws) Subprotocol() string           { return "rtsp" }
 func (w *c13ws) TextTransport() websocket.Conn { return w }
-func (w *c13ws) Path() string                   { return w.path }
-func (w *c13ws) Username() string               { return "" }
+func (w *c13ws) Path() string                  { return w.path }
+func (w *c13ws) Username() string              { return "" }
 
 var c13quiet sync.Once
 
@@ -130,9 +130,12 @@ func c13parse(sink []byte) (frames, resps int64, ok bool) {
 }
 
 // case = (ws scenario packets requests schedule drain)
-//   packets = ((channel data) ..)   requests = ((method cseq) ..)
+//
+//	packets = ((channel data) ..)   requests = ((method cseq) ..)
+//
 // observation = (sink (frame-messages) (response-messages) (nframes nresps parse_ok)
-//                overlap expect-flag (socket-writes ..) note)
+//
+//	overlap expect-flag (socket-writes ..) note)
 func c13session(c Val) Val {
 	c13quiet.Do(func() { xlog.ReplaceGlobal(xlog.New(xlog.NewNopCore())) })
 	ws, scenario := c.At(0).Bool(), c.At(1).Int()
